@@ -136,6 +136,15 @@ impl ClientConnection {
             (method, path, version, headers)
         };
 
+        // the peer address cannot be obtained when the client is already gone
+        let remote_addr = match self.remote_addr {
+            Ok(addr) => addr,
+            Err(ref e) => {
+                let err = IoError::new(e.kind(), "peer address unavailable");
+                return Err(ReadError::ReadIoError(err));
+            }
+        };
+
         // building the writer for the request
         let writer = self.sink.next().unwrap();
 
@@ -150,7 +159,7 @@ impl ClientConnection {
             path,
             version.clone(),
             headers,
-            *self.remote_addr.as_ref().unwrap(),
+            remote_addr,
             data_source,
             writer,
         )
